@@ -2565,7 +2565,7 @@ example :
     let x : Exn := .ordinary 1 .permanent
     let t : Trace :=
       [(.op 1, .raise x 0), (.classify "o1", .klass ⟨.permanent, none⟩ 0),
-       (.metric .permanentFail 1 0 (Tags.mk (some .permanent) (some "XPERMANENT") (some .nonRetryableClass)
+       (.metric .permanentFail 1 0 (Tags.mk (some .permanent) (some "XGEN") (some .nonRetryableClass)
           (some .exception) none none), .unit 0)]
     Mon.C14.guard { metric := true } .call t (.raised x) = true ∧ Mon.C14.ok { metric := true } .call t (.raised x) = true := by
   decide
